@@ -1,9 +1,11 @@
 package main
 
 import (
+	"context"
 	"fmt"
 	"math/rand"
 	"os"
+	"sync"
 	"sync/atomic"
 	"time"
 
@@ -67,7 +69,9 @@ func runC03(ctx *Ctx, c *c03Case) {
 	ctx.LogCase(map[string]interface{}{"class": "process-died:" + c.class(), "case": c})
 	rig := newRig(ctx, c.Spec)
 	defer rig.close()
-	cancel, done, wg := rig.start()
+	cctx, cancel := context.WithCancel(context.Background())
+	var done chan runResult
+	var wg *sync.WaitGroup
 	var stopped int32
 	var eventsAtStop int64
 	stop := func(locked bool) {
@@ -109,7 +113,10 @@ func runC03(ctx *Ctx, c *c03Case) {
 			}
 		}
 		rig.mu.Unlock()
-	} else {
+	}
+	// the stop callbacks are installed before Run starts: the first device operations come at once
+	done, wg = rig.launch(cctx)
+	if !c.Stall && c.AtEvent == 0 {
 		go func() {
 			time.Sleep(time.Duration(c.AfterMs) * time.Millisecond)
 			stop(false)
@@ -166,11 +173,7 @@ func runC03(ctx *Ctx, c *c03Case) {
 		return
 	}
 	// was the last PWM write a refused/ignored 255?
-	refused := false
-	if w := rig.pwmWrites(); len(w) > 0 {
-		last := w[len(w)-1]
-		refused = last.Val == 255 && (last.Err != "" || last.Action == "ignore")
-	}
+	refused := rig.lastPwmWriteRefused()
 	touched := atomic.LoadInt64(&rig.Events) > 0
 	if c.Spec.FanKind == "cmd" {
 		w := rig.cmdWrites()
